@@ -84,7 +84,7 @@ def run_shard_subprocess(pid, shard, tier, seed, timeout):
 
 
 def write_replay(pid, v):
-    d = os.path.join(env.VERIF_DIR, 'replays', pid)
+    d = os.path.join(os.environ.get('VERIF_REPLAY_DIR', os.path.join(env.VERIF_DIR, 'replays')), pid)
     os.makedirs(d, exist_ok=True)
     blob = json.dumps(v, sort_keys=True, default=repr)
     path = os.path.join(d, hashlib.sha1(blob.encode()).hexdigest()[:16] + '.json')
@@ -210,8 +210,9 @@ def main(argv=None):
         'wall_s': round(wall, 2),
         'violations': int(len(new)),
     }
-    os.makedirs(os.path.join(env.VERIF_DIR, 'evidence'), exist_ok=True)
-    with open(os.path.join(env.VERIF_DIR, 'evidence', pid + '.json'), 'w') as f:
+    evdir = os.environ.get('VERIF_EVIDENCE_DIR', os.path.join(env.VERIF_DIR, 'evidence'))
+    os.makedirs(evdir, exist_ok=True)
+    with open(os.path.join(evdir, pid + '.json'), 'w') as f:
         json.dump(ev, f, indent=1, default=repr)
     print('%s %s tier=%s seed=%d evaluations=%d distinct_nontrivial=%d violations=%d known=%d wall=%.1fs'
           % (pid, status.upper(), tier, seed, cov['evaluations'], cov['distinct_nontrivial'],
